@@ -697,6 +697,46 @@ impl<'a> Pool<'a> {
         }
     }
 
+    /// Declare one short letter both as a flag and as an argument (ambiguous clusters such as
+    /// `-qq`, `-vq` are then reported by the tokenizer)
+    pub fn inject_ambiguous(&mut self, spec: &mut OptSpec) {
+        if let Spec::Seq(fields) = &mut spec.root {
+            if fields.len() < 10 {
+                let c = *self.rng.pick(&['q', 'w', 'x']);
+                if !self.shorts.insert(c) {
+                    return;
+                }
+                let id1 = self.id();
+                let id2 = self.id();
+                fields.insert(
+                    0,
+                    Spec::Item(Item {
+                        id: id1,
+                        names: Names::short(c),
+                        help: None,
+                        leaf: Leaf::Switch,
+                    }),
+                );
+                let arg = Spec::Item(Item {
+                    id: id2,
+                    names: Names {
+                        shorts: vec![c],
+                        longs: vec![format!("amb{}", id2)],
+                        envs: vec![],
+                    },
+                    help: None,
+                    leaf: Leaf::Arg {
+                        ty: Ty::Str,
+                        metavar: format!("M{}", id2),
+                        adjacent: false,
+                    },
+                });
+                let id3 = self.id();
+                fields.insert(1, Spec::wrap(W::Optional { catch: false }, id3, arg));
+            }
+        }
+    }
+
     /// One command level
     pub fn level(&mut self, depth: usize) -> OptSpec {
         let id = self.id();
